@@ -348,3 +348,111 @@ Proof.
   destruct (parse_template src) as [t r|e|[|]]; try discriminate; [|congruence].
   destruct (ParseResult.show_errors src e (b "cargo:warning=")); discriminate.
 Qed.
+
+(* ---- more fuel never changes an answer (FuelFacts.le_p) ---- *)
+Lemma le_ext {A} (p p' q q' : parser A) : (forall i, p i = p' i) -> (forall i, q i = q' i) -> le_p p q -> le_p p' q'.
+Proof. intros E1 E2 H i Hi. rewrite <- E1, <- E2 in *. now apply H. Qed.
+
+Lemma exprF_mono self self' : (forall y, le_p (self y) (self' y)) -> forall x, le_p (exprF self x) (exprF self' x).
+Proof.
+  intros H x. assert (HE : forall y, le_p (fun j => self y j) (fun j => self' y j)) by (intros y; apply le_eta, H).
+  unfold exprF, exprF_gen. destruct x; cbv zeta; apply le_eta; unfold atom_alt, postfix_alt; le_auto; apply HE.
+Qed.
+Lemma expr_gram_step n : forall x, le_p (expr_gram n x) (expr_gram (S n) x).
+Proof.
+  induction n as [|n IH]; intros x; [apply le_bot|]. cbn [expr_gram]. now apply exprF_mono.
+Qed.
+Theorem expr_gram_mono n m : n <= m -> forall x, le_p (expr_gram n x) (expr_gram m x).
+Proof.
+  induction 1 as [|m _ IH]; intros x; [apply le_refl|]. eapply le_trans; [apply IH|apply expr_gram_step].
+Qed.
+
+Section TexprMono.
+  Variables E E' : nt -> parser bytes.
+  Hypothesis HE : forall y, le_p (E y) (E' y).
+  Let HEx : le_p (expression E) (expression E'). Proof. unfold expression. apply le_eta, HE. Qed.
+
+  Lemma logic_mono n : forall m, n <= m -> le_p (logic_expression E n) (logic_expression E' m).
+  Proof.
+    induction n as [|n IH]; intros m Hm; [apply le_bot|]. destruct m as [|m]; [lia|]. cbn [logic_expression].
+    assert (le_p (fun j => logic_expression E n j) (fun j => logic_expression E' m j)) by (apply le_eta, IH; lia).
+    le_auto.
+  Qed.
+  Lemma cond_mono n m : n <= m -> le_p (cond_expression E n) (cond_expression E' m).
+  Proof.
+    intros Hm. pose proof (logic_mono n m Hm).
+    apply (le_ext
+      (bind (opt (tag (b "let"))) (fun o => match o with
+        | Some _ => pmap (fun '(lhs, rhs) => (b "let " ++ lhs ++ b " = " ++ rhs)%list)
+                      (pair (preceded spacelike (context (b "Expected LHS expression in let binding") (expression E)))
+                            (preceded (delimited spacelike (char 61) spacelike)
+                                      (context (b "Expected RHS expression in let binding") (expression E))))
+        | None => context (b "Expected expression") (logic_expression E n) end))
+      _
+      (bind (opt (tag (b "let"))) (fun o => match o with
+        | Some _ => pmap (fun '(lhs, rhs) => (b "let " ++ lhs ++ b " = " ++ rhs)%list)
+                      (pair (preceded spacelike (context (b "Expected LHS expression in let binding") (expression E')))
+                            (preceded (delimited spacelike (char 61) spacelike)
+                                      (context (b "Expected RHS expression in let binding") (expression E'))))
+        | None => context (b "Expected expression") (logic_expression E' m) end))).
+    - intros i. unfold cond_expression, bind. destruct (opt (tag (b "let")) i) as [[t|] r|e|k]; reflexivity.
+    - intros i. unfold cond_expression, bind. destruct (opt (tag (b "let")) i) as [[t|] r|e|k]; reflexivity.
+    - apply le_bind; [apply le_refl|]. intros [t|]; le_auto.
+  Qed.
+
+  Variables ln ln' : nat.
+  Hypothesis Hln : ln <= ln'.
+
+  Lemma texprF_mono self self' : (forall y, le_p (self y) (self' y)) -> forall x, le_p (texprF E ln self x) (texprF E' ln' self' x).
+  Proof.
+    intros H x.
+    assert (Hte : le_p (fun j => self TE j) (fun j => self' TE j)) by apply le_eta, H.
+    assert (Hif : le_p (fun j => self IF2 j) (fun j => self' IF2 j)) by apply le_eta, H.
+    pose proof (cond_mono ln ln' Hln) as Hc.
+    assert (Hb : le_p (template_block (fun j => self TE j)) (template_block (fun j => self' TE j))) by (unfold template_block; le_auto).
+    assert (Hei : le_p (expr_in_braces E) (expr_in_braces E')) by (unfold expr_in_braces; apply le_eta, HE).
+    assert (Hep : le_p (expr_inside_parens E) (expr_inside_parens E')) by (unfold expr_inside_parens; apply le_eta, HE).
+    assert (Hce : le_p (comma_expressions E) (comma_expressions E')) by (unfold comma_expressions; le_auto).
+    unfold texprF. cbv zeta. destruct x; apply le_eta.
+    - apply le_bind; [apply le_refl|]. intros [t|]; [|apply le_refl].
+      unfold te_branch.
+      repeat match goal with |- le_p (fun _ => if ?c then _ else _) (fun _ => if ?c then _ else _) => destruct c end;
+        try apply le_refl; try (apply le_eta; assumption);
+        apply le_eta; unfold call_branch, for_branch, match_branch, paren_branch, template_argument, for_variable, loop_expression; le_auto.
+    - unfold if2_body. le_auto.
+  Qed.
+  Lemma texpr_gram_mono n : forall m, n <= m -> forall x, le_p (texpr_gram E ln n x) (texpr_gram E' ln' m x).
+  Proof.
+    induction n as [|n IH]; intros m Hm x; [apply le_bot|]. destruct m as [|m]; [lia|]. cbn [texpr_gram].
+    apply texprF_mono. intros y. apply IH. lia.
+  Qed.
+End TexprMono.
+
+Lemma tyF_mono self self' : (forall y, le_p (self y) (self' y)) -> forall x, le_p (tyF self x) (tyF self' x).
+Proof.
+  intros H x. assert (HA : le_p (fun j => self TyExpr j) (fun j => self' TyExpr j)) by apply le_eta, H.
+  assert (HB : le_p (fun j => self TyComma j) (fun j => self' TyComma j)) by apply le_eta, H.
+  unfold tyF. destruct x; cbv zeta; apply le_eta; le_auto.
+Qed.
+Theorem ty_gram_mono n : forall m, n <= m -> forall x, le_p (ty_gram n x) (ty_gram m x).
+Proof.
+  induction n as [|n IH]; intros m Hm x; [apply le_bot|]. destruct m as [|m]; [lia|]. cbn [ty_gram].
+  apply tyF_mono. intros y. apply IH. lia.
+Qed.
+
+(* the whole template parser at any fuel above the one Compile.v uses gives the same answer *)
+Definition parse_template_with (f : nat) (src : bytes) : res template_t :=
+  template (ty_gram f) (texpr_gram (expr_gram f) f f TE) src.
+Theorem parse_fuel_irrelevant_lemma src f : fuel_for src <= f -> parse_template_with f src = parse_template src.
+Proof.
+  intros Hf. unfold parse_template_with. change (parse_template src) with (parse_template_with (fuel_for src) src).
+  unfold parse_template_with.
+  assert (M : le_p (template (ty_gram (fuel_for src)) (texpr_gram (expr_gram (fuel_for src)) (fuel_for src) (fuel_for src) TE))
+                   (template (ty_gram f) (texpr_gram (expr_gram f) f f TE))).
+  { unfold template, formal_argument.
+    assert (le_p (fun j => ty_gram (fuel_for src) TyExpr j) (fun j => ty_gram f TyExpr j)) by (apply le_eta, ty_gram_mono; exact Hf).
+    assert (le_p (texpr_gram (expr_gram (fuel_for src)) (fuel_for src) (fuel_for src) TE) (texpr_gram (expr_gram f) f f TE)).
+    { apply texpr_gram_mono; try exact Hf. intros y. now apply expr_gram_mono. }
+    le_auto. }
+  apply M. exact (parse_fuel_sufficient_lemma src).
+Qed.
